@@ -286,6 +286,9 @@ def cases(tier, seed, spec):
     yield from (c for c in gen.ctx_stream(tier, seed, with_wide=(tier == 'thorough')) if len(c['properties']) <= 200)
 
 
+KEPT = []
+
+
 def run_case(concepts, case, spec):
     rng = common.rng_for(case, spec)
     ctx = common.build_or_skip(concepts, case)
@@ -339,6 +342,13 @@ def run_case(concepts, case, spec):
             call(str, rel)
         call(ctx.relations)
         COL.count('asked_again_after_interference')
+    # results (and single entries) of earlier contexts stay referenced while later contexts are asked
+    kept = call(ctx.relations, True)
+    if kept is not RAISED:
+        KEPT.append(kept if rng.random() < .5 else list(kept)[:3])
+        if len(KEPT) > 12:
+            KEPT.pop(0)
+        COL.count('earlier_results_kept_alive')
     old = POOL.older(rng)
     if old is not None:
         r = call(old.relations)
